@@ -141,6 +141,38 @@ def coverage_histories():
     return hs
 
 
+def root_histories():
+    """systematic, seed independent: several titled add_root_schema calls on ONE space (different titles,
+    self references through "#", with and without definitions), interleaved with batches and reference probes"""
+    def root(title, defs=None, self_ref=True, **props):
+        p = dict(props)
+        if self_ref:
+            p["me"] = {"$ref": "#"}
+        d = {"title": title, "type": "object", "properties": p, "required": sorted(k for k in p if k != "me")}
+        if defs is not None:
+            d["definitions"] = defs
+        return {"op": "root", "doc": d}
+    i_, s_, b_ = {"type": "integer"}, {"type": "string"}, {"type": "boolean"}
+    dA = {"Ad": _obj(x=s_)}
+    dB = {"Bd": _obj(y=i_, up={"$ref": "#"})}
+    probe = lambda k: {"op": "add", "schema": {"$ref": k}}            # noqa
+    hs = [
+        [root("Alpha", a=s_), root("Beta", b=i_)],
+        [root("Alpha", a=s_), root("Beta", b=i_), root("Gamma", c=b_), probe("#")],
+        [root("Alpha", self_ref=False, a=s_), root("Beta", b=i_), probe("#")],
+        [root("Alpha", defs=dA, a={"$ref": "#/definitions/Ad"}), root("Beta", defs=dB, b={"$ref": "#/definitions/Bd"}),
+         probe("#/definitions/Ad"), probe("#/definitions/Bd"), probe("#")],
+        [root("Alpha", a=s_), {"op": "refs", "defs": {"Xd": _obj(x=s_)}}, root("Beta", b={"$ref": "#/definitions/Xd"}),
+         probe("#/definitions/Xd"), probe("#")],
+        [{"op": "refs", "defs": {"Xd": _obj(x=s_)}}, root("Alpha", a={"$ref": "#/definitions/Xd"}),
+         {"op": "add", "schema": _obj(r={"$ref": "#"}), "name": "Holder"}, root("Beta", b=i_),
+         {"op": "add", "schema": _obj(r={"$ref": "#"}), "name": "HolderTwo"}],
+        [root("Alpha", defs={}, a=s_), root("Beta", defs={}, b={"type": "array", "items": {"$ref": "#"}})],
+        [{"op": "root", "doc": {"title": "Alpha", "type": "string", "maxLength": 4}}, root("Beta", b=i_), probe("#")],
+    ]
+    return [{"steps": copy.deepcopy(h), "coverage": "roots/%d" % k} for k, h in enumerate(hs)]
+
+
 class Gen:
     def __init__(self, rnd, pool=None, tag=""):
         self.rnd = rnd
@@ -226,6 +258,11 @@ class Gen:
             doc = self.obj(2, list(defs)) if self.rnd.random() < 0.8 else {"type": "string"}
             if self.rnd.random() < 0.7:
                 doc["title"] = self.fresh()
+                if doc.get("type") == "object" and self.rnd.random() < 0.5:
+                    # the root refers to itself: "#" is RefKey::Root, re-pointed by every titled document
+                    doc = copy.deepcopy(doc)
+                    doc["properties"][self.rnd.choice(["me", "again"])] = \
+                        {"$ref": "#"} if self.rnd.random() < 0.6 else {"type": "array", "items": {"$ref": "#"}}
             doc = dict(doc)
             doc["definitions"] = defs
             return {"op": "root", "doc": doc}
@@ -404,6 +441,17 @@ class TraceError(Exception):
     pass
 
 
+def step_keys(step):
+    """ref keys (as verif_dump prints them) of the definitions a refs/root call reserves ids for, in order"""
+    if step["op"] == "refs":
+        return ["#/" + k for k in sorted(step["defs"])]
+    doc = step["doc"]
+    ks = ["#/" + k for k in sorted(doc.get("definitions", {}))]
+    if isinstance(doc, dict) and "title" in doc:
+        ks.append("#")
+    return ks
+
+
 def c_abs(i):
     return "CAbs %d" % i
 
@@ -453,10 +501,15 @@ def derive_call(nb, step, d0, rec):
     else:
         p = d1
         n = len([1 for v in d1["ref_to_id"].values() if v >= base])
-    inv = {}
-    for k, v in p["ref_to_id"].items():
-        if base <= v < base + n:
-            inv[v] = k
+    # the i-th reserved id belongs to the i-th definition of the call (lib.rs:629-633); definitions arrive in
+    # BTreeMap (= sorted) order, the titled root last (lib.rs:800-814).  NOT read back from ref_to_id: the model
+    # decides what ref_to_id has to contain afterwards.
+    keys = step_keys(step)
+    if ok and len(keys) != n:
+        raise TraceError("call has %d definitions, def_len is %d" % (len(keys), n))
+    if not ok:
+        n = len(keys)
+    inv = {base + j: k for j, k in enumerate(keys)}
     assigned = []
     for i in range(base + n, p["next_id"]):
         e = p["entries"].get(str(i))
@@ -586,9 +639,87 @@ def reachable(views, roots):
     return seen
 
 
+def _norm(nm):
+    return "".join(c for c in str(nm).lower() if c.isalnum())
+
+
+def _named_target(views, i, depth=0):
+    """follow Option/Box/Vec/... wrappers from id i to the first struct/enum/newtype"""
+    v = views.get(str(i))
+    if v is None or depth > 6:
+        return None
+    d = v["details"]
+    if d["k"] in ("struct", "enum", "newtype"):
+        return v
+    for k in ("id", "inner"):
+        if isinstance(d.get(k), int):
+            return _named_target(views, d[k], depth + 1)
+    return None
+
+
+def check_resolves(views, i, name, schema, latest, what):
+    """the type behind id i must be the one made from `schema` under `name`: same type name, same property
+    set, and every `$ref` property points at the type the referenced key currently stands for"""
+    v = views.get(str(i))
+    if v is None:
+        return {"what": what, "expected_type": name, "observed": "id %s has no type" % i}
+    if _norm(v["name"]) != _norm(name):
+        return {"what": what, "expected_type": name, "observed_type": v["name"], "id": i}
+    props = schema.get("properties") if isinstance(schema, dict) and schema.get("type") == "object" else None
+    if props and v["details"]["k"] == "struct":
+        got = sorted(_norm(pp["name"]) for pp in v["details"]["props"])
+        if got != sorted(_norm(k) for k in props):
+            return {"what": what, "expected_type": name, "expected_properties": sorted(props),
+                    "observed_properties": got, "id": i}
+        for pp in v["details"]["props"]:
+            ps = [sc for k, sc in props.items() if _norm(k) == _norm(pp["name"])]
+            ref = ps[0].get("$ref") if ps and isinstance(ps[0], dict) else None
+            key = "#" if ref == "#" else (ref.replace("#/definitions/", "#/") if ref else None)
+            if key in latest:
+                tv = _named_target(views, pp["type_id"])
+                if tv is not None and _norm(tv["name"]) != _norm(latest[key][0]):
+                    return {"what": "%s: property `%s` with $ref %s" % (what, pp["name"], ref),
+                            "expected_type": latest[key][0], "observed_type": tv["name"]}
+    return None
+
+
+def reference_table(steps, recs):
+    """user-visible view of a history on which model and implementation part: after every call, what each
+    reference key and the returned id resolve to (type name, properties), next to what the model's semantics
+    (the latest call that defined the key owns it) says"""
+    rows, latest = [], {}
+    for t, (st, rec) in enumerate(zip(steps, recs)):
+        if rec["res"]["r"] != "ok" or "panic" in rec["views"]:
+            rows.append({"call": t, "result": rec["res"]["r"]})
+            continue
+        if st["op"] in ("refs", "root"):
+            defs = st["defs"] if st["op"] == "refs" else st["doc"].get("definitions", {})
+            for k in sorted(defs):
+                latest["#/" + k] = (k, t)
+            if st["op"] == "root" and "title" in st["doc"]:
+                latest["#"] = (st["doc"]["title"], t)
+
+        def desc(i):
+            v = rec["views"].get(str(i))
+            if v is None:
+                return None
+            d = v["details"]
+            return {"id": i, "type": v["name"],
+                    "properties": [pp["name"] for pp in d["props"]] if d["k"] == "struct" else d["k"]}
+        row = {"call": t, "op": st["op"], "returned": desc(rec["res"].get("id")) if rec["res"].get("id") else None,
+               "references": {}}
+        for k, (nm, tc) in sorted(latest.items()):
+            i = rec["dump"]["ref_to_id"].get(k)
+            row["references"][k] = {"model": "%s as defined by call %d" % (nm, tc),
+                                    "implementation": desc(i) if i is not None else "not registered"}
+        rows.append(row)
+    return rows
+
+
 def direct_oracles(steps, recs):
     """-> list of violation dicts (kind, step, ...)."""
     out = []
+    latest = {}                # ref key -> (type name, schema) of the LATEST call that defined it
     returned = set()
     first_result = {}          # canonical step json -> (step index, returned id)
     prev = None
@@ -627,6 +758,46 @@ def direct_oracles(steps, recs):
                 for c in reachable({i: v}, [int(i)]) - {int(i)}:
                     if str(c) not in views:
                         out.append({"kind": "child-id-does-not-resolve", "step": t, "id": int(i), "child": c})
+        # references: a later definition of a key re-points it (ref_to_id.insert, lib.rs:630); the id returned
+        # by add_root_schema is the type of THAT document's root; `$ref` properties bind to the current target
+        if ok and "panic" not in views:
+            base0 = prev["dump"]["next_id"] if prev is not None else 1
+            if st["op"] in ("refs", "root"):
+                defs = st["defs"] if st["op"] == "refs" else st["doc"].get("definitions", {})
+                mine = {}
+                for k in sorted(defs):
+                    mine["#/" + k] = (k, defs[k])
+                if st["op"] == "root" and "title" in st["doc"]:
+                    mine["#"] = (st["doc"]["title"], st["doc"])
+                latest.update(mine)
+                for k, (nm, sc) in mine.items():
+                    i = rec["dump"]["ref_to_id"].get(k)
+                    bad = None
+                    if i is None:
+                        bad = {"what": "reference " + k, "expected_type": nm, "observed": "key not registered"}
+                    elif i < base0:
+                        ov = views.get(str(i), {})
+                        bad = {"what": "reference " + k, "expected_type": "%s as defined by this call" % nm,
+                               "observed": "still the id %d of an EARLIER call" % i, "observed_type": ov.get("name")}
+                    else:
+                        bad = check_resolves(views, i, nm, sc, latest, "reference " + k)
+                    if bad:
+                        out.append(dict(bad, kind="reference-resolves-to-other-type", step=t, op=st["op"]))
+                if st["op"] == "root" and "title" in st["doc"]:
+                    rid = rec["res"].get("id")
+                    bad = {"what": "id returned by add_root_schema", "expected_type": st["doc"]["title"],
+                           "observed": "no id returned"} if rid is None else \
+                        check_resolves(views, rid, st["doc"]["title"], st["doc"], latest, "id returned by add_root_schema")
+                    if bad:
+                        out.append(dict(bad, kind="root-id-names-other-type", step=t, op="root"))
+            elif isinstance(st["schema"], dict) and set(st["schema"]) == {"$ref"}:
+                ref = st["schema"]["$ref"]
+                key2 = "#" if ref == "#" else ref.replace("#/definitions/", "#/")
+                if key2 in latest:
+                    bad = check_resolves(views, rec["res"].get("id"), latest[key2][0], latest[key2][1], latest,
+                                         "add_type($ref %s)" % ref)
+                    if bad:
+                        out.append(dict(bad, kind="reference-resolves-to-other-type", step=t, op="add"))
         # clause 2: re-adding
         key = json.dumps(st, sort_keys=True)
         if ok and key in first_result:
@@ -667,7 +838,8 @@ def classify(steps, recs, v):
     failed_before = any(r["res"]["r"] != "ok" and s["op"] in ("refs", "root")
                         for s, r in zip(steps[:t + 1], recs[:t + 1]))
     if failed_before and v["kind"] in ("entry-changed-by-later-call", "returned-id-does-not-resolve",
-                                       "child-id-does-not-resolve", "introspection-panics", "render-fails"):
+                                       "child-id-does-not-resolve", "introspection-panics", "render-fails",
+                                       "reference-resolves-to-other-type", "root-id-names-other-type"):
         return "C16-4"
     if v["kind"] in ("readd-returns-different-id", "readd-adds-definitions") and v["op"] in ("refs", "root"):
         return "C16-1"
@@ -852,12 +1024,12 @@ def run(ctx):
     corpus = load_corpus()
     hists = [{"steps": c["steps"], "settings": c.get("settings", {}), "corpus": c["file"],
               "expect": c.get("expect", []), "must_reject": c.get("must_reject", [])} for c in corpus]
-    cover = coverage_histories()
+    cover = coverage_histories() + root_histories()
     for c in cover:
         hists.append({"steps": c["steps"], "seed_path": "coverage:" + c["coverage"], "coverage": c["coverage"]})
     for k in range(n_hist):
         hists.append({"steps": gen_history(rnd, maxlen), "seed_path": "%d/%d" % (ctx.seed, k)})
-    ctx.log("histories: %d corpus + %d coverage (named kinds x origins x re-add forms) + %d generated (max %d calls)" % (
+    ctx.log("histories: %d corpus + %d systematic (named kinds x origins x re-add forms; titled roots) + %d generated (max %d calls)" % (
         len(corpus), len(cover), n_hist, maxlen))
 
     okm, outm = vlib.coq_make(["theories/Algo/Space.vo"])
@@ -876,7 +1048,7 @@ def run(ctx):
     for c0 in range(0, len(hists), CH):
         chunk = hists[c0:c0 + CH]
         results = run_histories(chunk)
-        exprs, meta = [], []
+        exprs, meta, rtabs = [], [], {}
         for h, r in zip(chunk, results):
             if r.get("r") != "done":
                 unlisted.append({"kind": "harness", "history": h, "result": r})
@@ -889,8 +1061,10 @@ def run(ctx):
                 n_box += e.count("%nat")
                 exprs.append(e)
                 meta.append((h, projs, rets))
+                rtabs[id(h)] = reference_table(steps, recs)
             except TraceError as ex:
-                trace_err.append({"history": steps, "error": str(ex), "source": h.get("corpus", h.get("seed_path"))})
+                trace_err.append({"error": str(ex), "source": h.get("corpus", h.get("seed_path")), "history": steps,
+                                  "what_the_history_resolves_to": reference_table(steps, recs)})
             # hypothesis of C16_ids_stable: break_cycles re-points only slots of entries of the current call
             for t, rc in enumerate(recs):
                 for pre in rc["pre"]:
@@ -984,7 +1158,7 @@ def run(ctx):
                     n_replayed += 1
                     if d:
                         mism.append({"difference": d, "source": h.get("corpus", h.get("seed_path")),
-                                     "history": h["steps"]})
+                                     "history": h["steps"], "what_the_history_resolves_to": rtabs.get(id(h))})
             except Exception as e:  # noqa
                 model_errors.append(str(e)[-2000:])
     ctx.evaluations += n_calls
@@ -1090,8 +1264,11 @@ def run(ctx):
     elif ctx.broken():
         # search found nothing: still report
         ctx.violation({"broken_obligations": [(o[0], o[2][:1500]) for o in ctx.broken()],
+                       "histories_on_which_model_and_implementation_part": (trace_err + mism)[:3],
                        "note": "a theorem or the model/implementation correspondence no longer checks; the direct "
-                               "evaluation of the four clauses found no failing history"}, no_input=True)
+                               "evaluation of the four clauses found no failing history.  For each history above "
+                               "`what_the_history_resolves_to` shows, call by call, the type every reference key and "
+                               "the returned id resolve to next to the model's answer"}, no_input=True)
 
     if ctx.tier == "thorough" and coq_ok:
         rc, out, err = vlib.sh("timeout 1500 coqchk -silent -o -Q theories Typify Typify.Props.C16", cwd=vlib.COQ,
